@@ -826,7 +826,7 @@ func (f *frame) pathConds(b *ssa.BasicBlock) []string {
 		// too many whole paths: split over the path suffixes of bounded depth instead (every way of reaching b ends
 		// with one of them, so they still cover); the deepest suffix set that stays small is used
 		ps = nil
-		for depth := 1; depth <= 12; depth++ {
+		for depth := 1; depth <= 12 && f.vc.topC != nil && f.vc.topC.SuffixSplit; depth++ {
 			over := false
 			var sfx func(x *ssa.BasicBlock, d int) []string
 			sfx = func(x *ssa.BasicBlock, d int) []string {
